@@ -13,7 +13,9 @@ use async_trait::async_trait;
 use datafusion::catalog::{Session, TableProvider};
 use datafusion::datasource::MemTable;
 use datafusion::execution::config::SessionConfig;
-use datafusion::logical_expr::{Expr, TableType};
+use datafusion::datasource::{ViewTable, provider_as_source};
+use datafusion::logical_expr::{ColumnarValue, Expr, LogicalPlanBuilder, ScalarFunctionArgs, ScalarUDF, ScalarUDFImpl, Signature, TableType, Volatility};
+use std::sync::atomic::{AtomicU64, Ordering};
 use datafusion::prelude::SessionContext;
 use datafusion_common::{DataFusionError, Result};
 use datafusion_physical_expr::expressions::Column;
@@ -171,6 +173,9 @@ pub struct TableSpec {
     pub accept_filters: bool,
     pub view: bool,
     pub sorted_by_id: bool,
+    /// `Some((column, n))`: the table is exposed through a view whose `column` goes through the
+    /// identity UDF `boom`, which fails at the evaluation that covers its n-th row (0-based)
+    pub udf_fault: Option<(String, u64)>,
 }
 
 pub fn parse_tables(v: &Value) -> Option<Vec<TableSpec>> {
@@ -184,6 +189,16 @@ pub fn parse_tables(v: &Value) -> Option<Vec<TableSpec>> {
             accept_filters: t.get("filters").and_then(|x| x.as_bool()).unwrap_or(false),
             view: t.get("view").and_then(|x| x.as_bool()).unwrap_or(false),
             sorted_by_id: t.get("order").and_then(|x| x.as_str()) == Some("id"),
+            udf_fault: match t.get("udf_fault") {
+                None | Some(Value::Null) => None,
+                Some(f) => {
+                    let col = f.get("col")?.as_str()?;
+                    if !["k", "v"].contains(&col) {
+                        return None;
+                    }
+                    Some((col.to_string(), f.get("row")?.as_u64()?))
+                }
+            },
         });
     }
     if out.is_empty() || out.len() > 4 {
@@ -209,7 +224,24 @@ pub fn build_session(env: &EnvSpec, knobs: &Value, tables: &[TableSpec]) -> Opti
             view: t.view,
             sorted_by_id: t.sorted_by_id,
         };
-        ctx.register_table(t.name.as_str(), Arc::new(tbl)).ok()?;
+        match &t.udf_fault {
+            None => {
+                ctx.register_table(t.name.as_str(), Arc::new(tbl)).ok()?;
+            }
+            Some((col, row)) => {
+                // the function seam: `<name>` is a view over the raw table in which one column goes
+                // through an identity UDF that fails at a scripted row
+                let udf = ScalarUDF::new_from_impl(Boom::new(format!("boom_{}", t.name), *row));
+                let raw = format!("{}_raw", t.name);
+                let source = provider_as_source(Arc::new(tbl));
+                let exprs: Vec<Expr> = ["id", "k", "s", "v"]
+                    .iter()
+                    .map(|c| if c == col { udf.call(vec![datafusion::prelude::col(*c)]).alias(*c) } else { datafusion::prelude::col(*c) })
+                    .collect();
+                let plan = LogicalPlanBuilder::scan(raw, source, None).ok()?.project(exprs).ok()?.build().ok()?;
+                ctx.register_table(t.name.as_str(), Arc::new(ViewTable::new(plan, None))).ok()?;
+            }
+        }
         stats.push((t.name.clone(), st));
     }
     Some(SimSession { ctx, env: cx, tables: stats })
@@ -231,6 +263,56 @@ pub fn build_baseline(tables: &[TableSpec]) -> Option<SessionContext> {
 
 pub fn rows_of(tables: &[TableSpec], name: &str) -> Vec<Row> {
     tables.iter().find(|t| t.name == name).map(|t| all_rows(&t.scripts)).unwrap_or_default()
+}
+
+// ---------------------------------------------------------------------------------------
+// The function seam: an identity scalar UDF that fails at a scripted row
+
+#[derive(Debug)]
+pub struct Boom {
+    name: String,
+    signature: Signature,
+    fail_row: u64,
+    seen: AtomicU64,
+}
+
+impl Boom {
+    pub fn new(name: String, fail_row: u64) -> Self {
+        Boom { name, signature: Signature::any(1, Volatility::Volatile), fail_row, seen: AtomicU64::new(0) }
+    }
+}
+impl PartialEq for Boom {
+    fn eq(&self, o: &Self) -> bool {
+        self.name == o.name && self.fail_row == o.fail_row
+    }
+}
+impl Eq for Boom {}
+impl std::hash::Hash for Boom {
+    fn hash<H: std::hash::Hasher>(&self, h: &mut H) {
+        self.name.hash(h);
+        self.fail_row.hash(h);
+    }
+}
+
+impl ScalarUDFImpl for Boom {
+    fn name(&self) -> &str {
+        &self.name
+    }
+    fn signature(&self) -> &Signature {
+        &self.signature
+    }
+    fn return_type(&self, arg_types: &[arrow::datatypes::DataType]) -> Result<arrow::datatypes::DataType> {
+        Ok(arg_types[0].clone())
+    }
+    fn invoke_with_args(&self, args: ScalarFunctionArgs) -> Result<ColumnarValue> {
+        let n = args.number_rows as u64;
+        let before = self.seen.fetch_add(n, Ordering::Relaxed);
+        if before <= self.fail_row && self.fail_row < before + n {
+            sim::probe("fault.udf_error");
+            return Err(DataFusionError::Execution(format!("simulated UDF failure at row {}", self.fail_row)));
+        }
+        Ok(args.args[0].clone())
+    }
 }
 
 // ---------------------------------------------------------------------------------------
